@@ -49,7 +49,11 @@ CHECKS.update({
          "one connection per server, schedule choices limited to the harness-placed gates on top of run-to-block; real sockets, timedExit, the web server and cmd/inbucket wiring are outside", "4 C19"),
 })
 
-NOT_APPLICABLE = {}
+NOT_APPLICABLE = {
+ "C10": "file-store durability needs a symbolic model of the OS file system, bufio writers and encoding/gob (reflection-based, not executable by the engine); not built — see DESIGN.md §5; no other technique is substituted",
+ "C11": "crash consistency needs the same file-system/gob model plus crash points with torn writes and strace-driven native replay; not built — see DESIGN.md §5",
+ "C18": "the property is carried by bluemonday and two third-party tokenizers that cannot be encoded; inbucket's glue only sees their token streams, and counterexamples over arbitrary token streams cannot be replayed natively — see DESIGN.md §5",
+}
 
 def main():
     props = [json.loads(l) for l in open('/verif/properties.jsonl')]
